@@ -450,6 +450,9 @@ def check(ctx):
                 changed = True
     ctx.notes.append("functions unreachable in the typestate analysis (all callers covered, never entered): %d, e.g. %s" % (len(tun), sorted(tun)[:5]))
 
+    # ---- A: application-side typestate under the FDL delivery contract
+    avisited, aflagged = app_typestate(ctx, P, cg)
+
     # ---- N: numeric
     num = Numeric(P, cg, reach)
     num.run()
@@ -488,6 +491,9 @@ def check(ctx):
                 detail = "delegated clause %s failed" % nm
             elif (f.name in visited and b not in visited[f.name]) or f.name in tun:
                 how = "T"
+            elif f.name in avisited and f.name not in visited and (b not in avisited[f.name] or
+                                                                      (s["kind"] in ("panic-call", "extern-unwrap") and (f.name, b) not in aflagged and s["kind"] == "extern-unwrap")):
+                how = "A"
             if how is None and isinstance(na, NumAnalysis):
                 obs = byb.get(b)
                 if s["kind"] in ("assert", "extern-index") or (s["kind"] == "extern-unwrap" and obs):
@@ -529,6 +535,44 @@ def check(ctx):
     for h in sorted(used_h | {x for v in num.used_hyps.values() for x in v}):
         ctx.assume("%s: %s" % (h, HYPOTHESES[h]))
     ctx.notes.append("discharge methods: " + ", ".join("%s=%d" % (k, v) for k, v in sorted(counts.items(), key=lambda kv: str(kv[0]))))
+
+
+def app_typestate(ctx, P, cg):
+    """Interprocedural variant analysis of the application callbacks, entered with what the FDL layer guarantees about a delivered
+    reply (clause c.fdl-admission of C04, re-run here): it is a short confirmation or a data telegram whose function code is a
+    response.  transmit_telegram / handle_timeout are entered without assumptions."""
+    from analysis.interproc import Interproc
+    from analysis.guards import Facts
+    from rules import C04
+    okc = delegate(ctx, "C04.c", lambda s: C04.check_fdl_admission(s, P), "C04")
+    ipa = Interproc(P, CR, max_disj=64)
+    tel = ("arg", "telegram")
+    fc = ("field", ("field", ("field", ("dc", tel, "Data"), "0"), "h"), "fc")
+    reply_entries = [Facts({("discr", tel): ("in", frozenset(["ShortConfirmation"]))}),
+                     Facts({("discr", tel): ("in", frozenset(["Data"])), ("discr", fc): ("in", frozenset(["Response"]))})]
+    n = 0
+    for meth in ("receive_reply", "transmit_telegram", "handle_timeout"):
+        for name in cg.dyn_impls.get("fdl::FdlApplication::" + meth, []):
+            f = P.get(CR, name)
+            if f is None:
+                continue
+            n += 1
+            if meth == "receive_reply" and okc:
+                for e in reply_entries:
+                    ipa.analyze(f, [e])
+            else:
+                ipa.analyze(f, [Facts()])
+    ctx.anchor("application callback implementations analysed", n, 12)
+    visited, flagged = {}, {}
+    for cx in ipa.contexts:
+        v = visited.setdefault(cx.fn.name, set())
+        for b, S in cx.ga.entry.items():
+            if S:
+                v.add(b)
+        for p in cx.panics:
+            if p["fn"].name == cx.fn.name:
+                flagged.setdefault((cx.fn.name, p["b"]), p)
+    return visited, flagged
 
 
 # residual table: (function suffix, site kind, detail regex or None) -> hypothesis
